@@ -279,7 +279,7 @@ def build_nodes(spec, trace: bool = True, hash_recv: bool = True) -> Dict[str, "
     nodes = []
     for i, nd in enumerate(spec["nodes"]):
         nodes.append(ProbeNode(name=nd["name"], rate=nd["rate"], delay_dist=make_dist(nd["dist"]), delay=nd.get("delay"), idx=i, trace=trace,
-                               hash_recv=hash_recv, scheduling=const.Scheduling.FREQUENCY if nd["sched"] == "F" else const.Scheduling.PHASE,
+                               hash_recv=hash_recv, ts_shift=nd.get("ts_shift", 0.0), scheduling=const.Scheduling.FREQUENCY if nd["sched"] == "F" else const.Scheduling.PHASE,
                                advance=nd["advance"]))
     for c in spec["conns"]:
         nodes[c["dst"]].connect(nodes[c["src"]], blocking=c["blocking"], skip=c["skip"], window=c["window"],
